@@ -121,8 +121,18 @@ func checkRAs(a, b *ndp.RouterAdvertisement) problems {
 	return ps
 }
 
+// wireMillis and wireSeconds truncate a duration to the granularity with which
+// the reachable time and retransmit timer (milliseconds) and the option
+// lifetimes (seconds) are carried in a router advertisement. Durations are
+// compared at that granularity so that a configuration with a finer-grained
+// value, such as a reachable time of "1.0005s" or a lifetime of "90.5s", is
+// still consistent with its own router advertisements as seen on the wire.
+func wireMillis(d time.Duration) time.Duration  { return d.Truncate(time.Millisecond) }
+func wireSeconds(d time.Duration) time.Duration { return d.Truncate(time.Second) }
+
 // checkDurations reports whether two time.Duration values are consistent.
 func checkDurations(want, got time.Duration) bool {
+	want, got = wireMillis(want), wireMillis(got)
 	if want == 0 || got == 0 {
 		// If either duration is unspecified, nothing to do.
 		return true
@@ -176,10 +186,10 @@ func checkPrefixes(want, got []ndp.Option) problems {
 			//
 			// TODO: deal with decrementing lifetimes? CoreRAD doesn't support
 			// them at the moment so we can't verify them either.
-			if a.PreferredLifetime != b.PreferredLifetime {
+			if wireSeconds(a.PreferredLifetime) != wireSeconds(b.PreferredLifetime) {
 				ps.push("prefix_information_preferred_lifetime", prefixStr(a), a.PreferredLifetime, b.PreferredLifetime)
 			}
-			if a.ValidLifetime != b.ValidLifetime {
+			if wireSeconds(a.ValidLifetime) != wireSeconds(b.ValidLifetime) {
 				ps.push("prefix_information_valid_lifetime", prefixStr(a), a.ValidLifetime, b.ValidLifetime)
 			}
 		}
@@ -218,7 +228,7 @@ func checkRoutes(want, got []ndp.Option) problems {
 			//
 			// TODO: deal with decrementing lifetimes? CoreRAD doesn't support
 			// them at the moment so we can't verify them either.
-			if a.Preference == b.Preference && a.RouteLifetime != b.RouteLifetime {
+			if a.Preference == b.Preference && wireSeconds(a.RouteLifetime) != wireSeconds(b.RouteLifetime) {
 				ps.push("route_information_lifetime", routeStr(a), a.RouteLifetime, b.RouteLifetime)
 			}
 		}
@@ -249,7 +259,7 @@ func checkRDNSS(want, got []ndp.Option) problems {
 
 	// Assuming both are advertising RDNSS, the options must be identical.
 	for i := range dnsA {
-		if a, b := dnsA[i].Lifetime, dnsB[i].Lifetime; a != b {
+		if a, b := dnsA[i].Lifetime, dnsB[i].Lifetime; wireSeconds(a) != wireSeconds(b) {
 			ps.push("rdnss_lifetime", "", a, b)
 		}
 
@@ -261,7 +271,9 @@ func checkRDNSS(want, got []ndp.Option) problems {
 
 		equal := true
 		for j := range dnsA[i].Servers {
-			if a, b := dnsA[i].Servers[j], dnsB[i].Servers[j]; a != b {
+			// An address carries no zone on the wire, so a zone in our own
+			// configuration must not make it differ from its wire image.
+			if a, b := dnsA[i].Servers[j], dnsB[i].Servers[j]; a.WithZone("") != b.WithZone("") {
 				equal = false
 				break
 			}
@@ -300,7 +312,7 @@ func checkDNSSL(want, got []ndp.Option) problems {
 
 	// Assuming both are advertising DNSSL, the options must be identical.
 	for i := range dnsA {
-		if a, b := dnsA[i].Lifetime, dnsB[i].Lifetime; a != b {
+		if a, b := dnsA[i].Lifetime, dnsB[i].Lifetime; wireSeconds(a) != wireSeconds(b) {
 			ps.push("dnssl_lifetime", "", a, b)
 		}
 
